@@ -19,7 +19,8 @@
    number to [used, path (the *raw* path: the names as they were walked, symbolic links inside it
    unresolved, exactly the string srv_pipe.go keeps), ty (the type the framework remembers from the
    last qid), open, omode, file (the fid holds an open os.File), data (the buffer), snap (the packed
-   listing kept by the last directory read at offset 0: <<name, size, kind>> per entry)].
+   listing kept by the last directory read at offset 0: <<name, size, kind>> per entry)].  leak
+   counts files the server dropped without closing them (FileDropped below).
 
    Step(s, a, h) gives the expected observation and the successor state of action tuple a in state
    s.  h is a hint taken from the observed behaviour where the code leaves a choice: the order in
@@ -57,7 +58,9 @@
                   dirents[offset:offset+0] and the server dies ("crash")
      FixWalk      a partial walk leaves the fid alone; as found an in-place partial walk moves it
      FixDangling  creating a symbolic link succeeds once the link exists; as found a link whose
-                  target cannot be opened is answered with Rerror and stays *)
+                  target cannot be opened is answered with Rerror and stays
+   (A fourth defect needs two requests in progress and is outside this sequential machine: Tcreate
+   with DMLINK naming a fid that a Twalk in progress is still setting up; see docs/pipefs.md.) *)
 EXTENDS Integers, Sequences, FiniteSets, TLC
 
 CONSTANTS Names,       \* file names
